@@ -152,6 +152,40 @@ func (e *Engine) callFunction(s *State, fn *ssa.Function, args []Value, bind []V
 	return o.ret
 }
 
+// blockInLoop reports whether b belongs to the natural loop of header (b reaches a back edge of header without
+// leaving through header): computed as "header dominates b and b reaches header".
+func (e *Engine) blockInLoop(fn *ssa.Function, header, b *ssa.BasicBlock) bool {
+	if b == header {
+		return true
+	}
+	if !header.Dominates(b) {
+		return false
+	}
+	seen := map[*ssa.BasicBlock]bool{}
+	var reach func(x *ssa.BasicBlock) bool
+	reach = func(x *ssa.BasicBlock) bool {
+		if x == header {
+			return true
+		}
+		if seen[x] {
+			return false
+		}
+		seen[x] = true
+		for _, s := range x.Succs {
+			if reach(s) {
+				return true
+			}
+		}
+		return false
+	}
+	for _, s := range b.Succs {
+		if reach(s) {
+			return true
+		}
+	}
+	return false
+}
+
 func (e *Engine) ipdom(fn *ssa.Function, b *ssa.BasicBlock) *ssa.BasicBlock {
 	m, ok := e.pdoms[fn]
 	if !ok {
